@@ -689,12 +689,30 @@ func (e *env) transfer(what string, plan []planned, extra uint64) *vf.Verdict {
 	select {
 	case r := <-boundary:
 		if r.err != nil {
+			if os.Getenv("VERIF_C12_DEBUG") != "" {
+				for _, d := range []string{"s2c", "c2s"} {
+					e.frames(d, func(rec *sim.Record, p *sim.Packet, f *refwire.Frame) {
+						if p.Kind == "1rtt" && f.Name != refwire.NameAck && f.Name != refwire.NamePadding {
+							fmt.Printf("%s #%d t=%v pn=%d %s stream=%d off=%d len=%d fin=%v max=%d\n", d, rec.Seq, rec.T, p.PN, f.Name, f.StreamID, f.Offset, len(f.Data), f.Fin, f.Max)
+						}
+					})
+				}
+			}
 			if v := e.alive(what + ": while the peer was " + r.phase + " and the client application read nothing"); v != nil {
 				return v
 			}
 			return e.bad(sigUnexpected, "%s: server failed %s: %v", what, r.phase, r.err)
 		}
 	case <-time.After(3600 * time.Second):
+		if os.Getenv("VERIF_C12_DEBUG") != "" {
+			for _, d := range []string{"s2c", "c2s"} {
+				e.frames(d, func(rec *sim.Record, p *sim.Packet, f *refwire.Frame) {
+					if p.Kind == "1rtt" && f.Name != refwire.NameAck && f.Name != refwire.NamePadding {
+						fmt.Printf("%s #%d t=%v pn=%d %s stream=%d off=%d len=%d fin=%v max=%d\n", d, rec.Seq, rec.T, p.PN, f.Name, f.StreamID, f.Offset, len(f.Data), f.Fin, f.Max)
+					}
+				})
+			}
+		}
 		if v := e.alive(what); v != nil {
 			return v
 		}
